@@ -50,7 +50,9 @@ def urls_from_text(string):
             i -= 1
 
         if i != stop:
-            url = url[: i + 1]
+            # NOTE: the pattern's unicode ranges include some whitespace characters,
+            # which the trimmed punctuation was hiding
+            url = url[: i + 1].rstrip()
 
         # NOTE: what remains after splitting and trimming must still be a url
         if not URL_WITH_PROTOCOL_RE.match(url):
